@@ -65,7 +65,7 @@ fn post(c: &PayloadCache<KTypes>) {
     assert!(c.item_count() == c.cache.len());
 }
 
-// @harness name=c15_insert prop=C15 tier=quick timeout=900
+// @harness name=c15_insert prop=C15 tier=quick timeout=900 replay=playback
 #[kani::proof]
 #[kani::unwind(6)]
 fn c15_insert() {
@@ -87,7 +87,7 @@ fn c15_insert() {
     kani::cover!(c.cache.len() == before + 1, "insert evicted nothing");
 }
 
-// @harness name=c15_try_evict prop=C15 tier=quick timeout=900
+// @harness name=c15_try_evict prop=C15 tier=quick timeout=900 replay=playback
 #[kani::proof]
 #[kani::unwind(6)]
 fn c15_try_evict() {
@@ -100,7 +100,7 @@ fn c15_try_evict() {
     kani::cover!(c.cache.len() == 0, "evicted everything");
 }
 
-// @harness name=c15_drain prop=C15 tier=quick timeout=900
+// @harness name=c15_drain prop=C15 tier=quick timeout=900 replay=playback
 #[kani::proof]
 #[kani::unwind(6)]
 fn c15_drain() {
@@ -113,7 +113,7 @@ fn c15_drain() {
     kani::cover!(c.cache.len() == before && before > 0, "drained nothing");
 }
 
-// @harness name=c15_truncate_after prop=C15 tier=quick timeout=900
+// @harness name=c15_truncate_after prop=C15 tier=quick timeout=900 replay=playback
 #[kani::proof]
 #[kani::unwind(6)]
 fn c15_truncate_after() {
@@ -134,7 +134,7 @@ fn c15_truncate_after() {
     kani::cover!(c.cache.len() == before && before > 0, "truncated nothing");
 }
 
-// @harness name=c15_purge_upto prop=C15 tier=quick timeout=900
+// @harness name=c15_purge_upto prop=C15 tier=quick timeout=900 replay=playback
 #[kani::proof]
 #[kani::unwind(6)]
 fn c15_purge_upto() {
@@ -147,7 +147,7 @@ fn c15_purge_upto() {
     kani::cover!(c.cache.len() == before && before > 0, "purged nothing (pinned or above)");
 }
 
-// @harness name=c15_clear_setle prop=C15 tier=quick timeout=900
+// @harness name=c15_clear_setle prop=C15 tier=quick timeout=900 replay=playback
 #[kani::proof]
 #[kani::unwind(6)]
 fn c15_clear_setle() {
